@@ -1,2 +1,3 @@
 pub mod compile;
+pub mod ift;
 pub mod sched;
